@@ -8,6 +8,9 @@ from dataclasses import dataclass, field
 from typing import Dict, List, Optional, Tuple, Iterator, Set, Any
 
 
+from .inline import inline_new_helpers, load_inventory
+
+
 class AnalysisError(Exception):
     """An anchor vanished / an idiom is not recognised: exit 2, never a verdict."""
 
@@ -107,7 +110,7 @@ class FuncInfo:
 
     def loc(self, node: Optional[ast.AST] = None) -> str:
         n = node if node is not None else self.node
-        return f"{self.module.relpath}:{getattr(n, 'lineno', self.lineno)}"
+        return f"{self.module.relpath}:{getattr(n, '_src_lineno', getattr(n, 'lineno', self.lineno))}"
 
     def fq(self) -> str:
         return f"{self.module.name}:{self.qualname}"
@@ -202,10 +205,13 @@ def own_nodes(root: ast.AST, include_root: bool = False, into_lambdas: bool = Fa
 
 
 class Program:
-    def __init__(self, repo: str, packages=('fggs', 'bin')):
+    def __init__(self, repo: str, packages=('fggs', 'bin'), inline: bool = True):
         self.repo = os.path.abspath(repo)
         self.modules: Dict[str, Module] = {}
         self.parse_errors: List[str] = []
+        self.inventory = load_inventory() if inline else set()
+        self.new_functions: Set[str] = set()
+        self.inline_log: List[str] = []
         for pkg in packages:
             d = os.path.join(self.repo, pkg)
             if not os.path.isdir(d):
@@ -221,10 +227,18 @@ class Program:
                     tree = ast.parse(src, filename=path)
                 except SyntaxError as e:
                     raise AnalysisError(f"cannot parse {path}: {e}")
+                # code cut out into functions the baseline does not have is pasted back into its callers (sa/inline.py)
+                new, log = inline_new_helpers(tree, modname, self.inventory)
+                self.new_functions |= {f"{modname}:{q}" for q in new}
+                self.inline_log += log
                 m = Module(modname, path, os.path.relpath(path, self.repo), src, tree)
                 self.modules[modname] = m
                 self._index_module(m)
         self._parents: Dict[int, ast.AST] = {}
+
+    def is_new_helper(self, f: "FuncInfo") -> bool:
+        """A private or nested function the baseline inventory does not have: its code is analysed where it is inlined."""
+        return f.fq() in self.new_functions and (f.name.startswith('_') and not f.name.startswith('__') or f.parent is not None)
 
     # ------------------------------------------------------------------ indexing
     def _index_module(self, m: Module) -> None:
@@ -346,6 +360,14 @@ class Program:
 
     def func(self, module: str, qualname: str) -> FuncInfo:
         m = self.module(module)
+        if qualname not in m.functions and '.' in qualname:
+            # a nested anchor that was renamed when it was lifted out and put back (sa/inline.py): the only recursive new function
+            # nested in the same parent takes its place
+            parent = qualname.rsplit('.', 1)[0]
+            cands = [f for q, f in m.functions.items() if q.startswith(parent + '.') and q.count('.') == qualname.count('.') and f.fq() in self.new_functions
+                     and any(isinstance(c, ast.Call) and isinstance(c.func, ast.Name) and c.func.id == f.name for c in ast.walk(f.node))]
+            if len(cands) == 1:
+                return cands[0]
         if qualname not in m.functions:
             raise AnalysisError(f"anchor function {module}:{qualname} not found")
         return m.functions[qualname]
